@@ -26,7 +26,7 @@ StructCount(c, g) == SumDom(c.struct, LAMBDA k : IF c.struct[k].cfg = g THEN c.s
 StructCfgs(c) == {c.struct[k].cfg : k \in DOMAIN c.struct}
 
 (* the op record of variant v / of the reference at site i (a zero record if absent) *)
-NoOp == [op |-> "", good |-> 0, low |-> 0, ins |-> FALSE, var |-> 0, tab |-> <<>>]
+NoOp == [op |-> "", good |-> 0, low |-> 0, ins |-> FALSE, var |-> 0, tab |-> <<>>, elig |-> TRUE]
 OpsOf(c, i, P(_)) == {k \in DOMAIN c.sites[i].ops : P(c.sites[i].ops[k])}
 VarOp(c, v) ==
     LET i == c.vars[v].si
